@@ -11,6 +11,12 @@ pub assume_specification [ i32::saturating_sub ] (a: i32, b: i32) -> (r: i32)
     ensures r == i32_sat_sub(a, b);
 pub assume_specification [ i32::saturating_add ] (a: i32, b: i32) -> (r: i32)
     ensures r == i32_sat_add(a, b);
+pub open spec fn i32_sat_mul(a: i32, b: i32) -> i32 {
+    if a * b > i32::MAX { i32::MAX } else if a * b < i32::MIN { i32::MIN } else { (a * b) as i32 }
+}
+// kani: std_spec_i32_saturating_mul3 (the only multiplier used: 3)
+pub assume_specification [ i32::saturating_mul ] (a: i32, b: i32) -> (r: i32)
+    ensures r == i32_sat_mul(a, b);
 pub open spec fn i32_clamp(v: i32, lo: i32, hi: i32) -> i32 {
     if v < lo { lo } else if v > hi { hi } else { v }
 }
